@@ -84,8 +84,9 @@ def compress_code(in_p):
     if b'_update60' in in_p and len(in_p) < PICO8_CODE_ALLOC_SIZE - (
             len(PICO8_FUTURE_CODE2) + 1):
         if in_p[-1] != b' '[0] and in_p[-1] != b'\n'[0]:
-            in_p += b'\n'
-        in_p += PICO8_FUTURE_CODE2
+            in_p = in_p + b'\n'
+        # (Not +=: in_p may be the caller's bytearray.)
+        in_p = in_p + PICO8_FUTURE_CODE2
 
     out = bytearray()
 
